@@ -33,6 +33,9 @@ def named_const(e, c):
         'u32::MAX': (1 << 32) - 1, 'core::num::<impl u32>::MAX': (1 << 32) - 1, 'i32::MIN': -(1 << 31), 'core::num::<impl i32>::MIN': -(1 << 31),
         'i32::MAX': (1 << 31) - 1, 'core::num::<impl i32>::MAX': (1 << 31) - 1,
         'i128::MIN': -(1 << 127), 'i128::MAX': (1 << 127) - 1, 'core::num::<impl i128>::MIN': -(1 << 127), 'core::num::<impl i128>::MAX': (1 << 127) - 1,
+        'i64::BITS': 64, 'core::num::<impl i64>::BITS': 64, 'u64::BITS': 64, 'core::num::<impl u64>::BITS': 64, 'i32::BITS': 32, 'core::num::<impl i32>::BITS': 32,
+        'u32::BITS': 32, 'core::num::<impl u32>::BITS': 32, 'usize::BITS': 64, 'core::num::<impl usize>::BITS': 64,
+        'u64::MAX': (1 << 64) - 1, 'core::num::<impl u64>::MAX': (1 << 64) - 1, 'i64::MAX as u64': (1 << 63) - 1,
         'usize::MAX': (1 << 64) - 1, 'core::num::<impl usize>::MAX': (1 << 64) - 1,
         'Option::<Infallible>::None': NONE, 'Option::<std::convert::Infallible>::None': NONE,
         'rust_decimal::Decimal::ZERO': dec_const('0'), 'rust_decimal::Decimal::ONE': dec_const('1'),
@@ -945,7 +948,17 @@ def _(e, st, raw, n, a, m):
 def _(e, st, raw, n, a, m):
     meth = m.group(1)
     if meth == 'partial_cmp' or meth == 'total_cmp': return None
-    return [(T, f64_method(meth, a))]
+    r = f64_method(meth, a)
+    if meth == 'log10' and is_sym(r) and not fp_is_conc(r):
+        # sound range axiom (the only fact about log10 that is used: it bounds the iteration count of Lambert W):
+        # for finite x, log10(x) <= 308.26; log10 of a positive finite double is >= -323.4
+        x = a[0]
+        # log10 of any double is NaN, +-inf or a value in [-323.4, 308.26]; it is +inf only for +inf, -inf only for +-0, NaN for NaN and negatives
+        e.assume(z3.Or(z3.fpIsNaN(r), z3.fpIsInf(r), z3.And(z3.fpLEQ(r, fp_const(308.26)), z3.fpGEQ(r, fp_const(-323.4)))))
+        e.assume(z3.Implies(z3.And(z3.fpIsInf(r), z3.fpIsPositive(r)), z3.And(z3.fpIsInf(x), z3.fpIsPositive(x))))
+        e.assume(z3.Implies(z3.Or(z3.fpIsNaN(x), z3.fpLT(x, fp_const(0.0))), z3.fpIsNaN(r)))
+        e.assume(z3.Implies(z3.fpIsZero(x), z3.And(z3.fpIsInf(r), z3.fpIsNegative(r))))
+    return [(T, r)]
 
 
 @summary(r'^<f64 as PartialOrd>::partial_cmp$')
